@@ -110,16 +110,20 @@ theorem govExec_ok {s s' : St} {p : Proposal} (h : govExec s p = (s', Res.ok)) :
   · simp [hv] at h; exact ⟨hv, commit_ok h⟩
   · simp [hv] at h
 
-/-- a create is accepted only under a valid, unused chain name -/
+/-- a create is accepted only under a valid, unused chain name that is not this chain's own name -/
 theorem create_only_fresh_valid (s s' : St) (p : Proposal) (hk : p.kind = .create)
-    (h : govExec s p = (s', Res.ok)) : validName p.name = true ∧ getClient s p.name = none := by
+    (h : govExec s p = (s', Res.ok)) : validName p.name = true ∧ p.name ≠ s.self ∧ getClient s p.name = none := by
   obtain ⟨hv, hh⟩ := govExec_ok h
-  constructor
+  refine ⟨?_, ?_, ?_⟩
   · unfold validateBasic at hv; exact ((Bool.and_eq_true _ _).mp hv).1
+  · intro hself
+    unfold handle at hh; rw [hk] at hh; simp [hself] at hh
   · unfold handle at hh; rw [hk] at hh; simp only at hh
-    cases hc : getClient s p.name with
-    | none => rfl
-    | some c => simp [hc] at hh
+    by_cases hself : p.name = s.self
+    · simp [hself] at hh
+    · cases hc : getClient s p.name with
+      | none => rfl
+      | some c => simp [hself, hc] at hh
 
 /-- an accepted proposal carried a client state that passes `Validate()` and both states unpack -/
 theorem accepted_wellformed (s s' : St) (p : Proposal) (h : govExec s p = (s', Res.ok)) :
@@ -131,7 +135,7 @@ theorem accepted_wellformed (s s' : St) (p : Proposal) (h : govExec s p = (s', R
   | none => simp [hc] at hv
   | some c =>
     cases hks : p.ks with
-    | none => unfold handle at hh; cases hkind : p.kind <;> simp [hkind, hc, hks] at hh <;> split at hh <;> simp at hh
+    | none => unfold handle at hh; cases hkind : p.kind <;> simp only [hkind, hc, hks] at hh <;> (repeat' (split at hh)) <;> simp at hh
     | some k => exact ⟨c, k, rfl, rfl, by simpa [hc] using hv.2⟩
 
 /-- an upgrade keeps the client type -/
@@ -197,43 +201,45 @@ theorem getClient_writeMeta (s : St) (n : Name) (c : CState) (n' : Name) :
   simp [getClient, writeMeta_cs]
 
 /-- **installs exactly** — after an accepted create / upgrade / toggle the stored client state is the proposal's,
-    the consensus state at its latest height is the proposal's (a created TSS client stores none), the consensus state
+    the consensus state at its latest height is the proposal's (create and toggle store none for a TSS consensus state —
+    see `toggle_tss_no_consensus`; upgrade always stores it), the consensus state
     has the client's type, and the client store holds the metadata the (new) type requires, processed at `s.now`. -/
 theorem installs_exactly (s s' : St) (p : Proposal) (c : CState) (k : KState) (hc : p.cs = some c) (hks : p.ks = some k)
     (h : govExec s p = (s', Res.ok)) :
     getClient s' p.name = some c ∧
-    (c.ty ≠ .tss ∨ p.kind ≠ .create → getCons s' p.name c.latest = some k) ∧
+    (k.ty ≠ .tss ∨ p.kind = .upgrade → getCons s' p.name c.latest = some k) ∧
     (c.ty ≠ .tss → k.ty = c.ty) ∧
     InitialisedFor s' p.name c s.now ∧ s'.now = s.now := by
   obtain ⟨_, hh⟩ := govExec_ok h
   unfold handle at hh
   cases hkind : p.kind <;> simp only [hkind, hc, hks] at hh
   · -- create
-    split at hh
-    · simp at hh
-    · unfold createClient at hh
-      cases hi : initClient (set s p.name .cs (.cstate c)) p.name c k with
-      | err e => simp [hi] at hh
-      | panic e => simp [hi] at hh
-      | ok s2 =>
-        obtain ⟨h2, hty⟩ := initClient_ok hi
-        simp only [hi] at hh
-        have hI : InitialisedFor s2 p.name c s.now := by
-          rw [h2]; exact writeMeta_initialised (set s p.name .cs (.cstate c)) p.name c
-        have hC : getClient s2 p.name = some c := by rw [h2, getClient_writeMeta, getClient_set_cs]
-        have hN : s2.now = s.now := by rw [h2, writeMeta_now]; rfl
-        by_cases ht : k.ty = .tss
-        · simp [ht] at hh; subst hh
-          refine ⟨hC, ?_, fun hne => (hty hne).1, hI, hN⟩
-          intro hor
-          have hne : c.ty ≠ .tss := by
+    by_cases hself : p.name = s.self
+    · simp [hself] at hh
+    · simp only [hself, ↓reduceIte] at hh
+      split at hh
+      · simp at hh
+      · unfold createClient at hh
+        cases hi : initClient (set s p.name .cs (.cstate c)) p.name c k with
+        | err e => simp [hi] at hh
+        | panic e => simp [hi] at hh
+        | ok s2 =>
+          obtain ⟨h2, hty⟩ := initClient_ok hi
+          simp only [hi] at hh
+          have hI : InitialisedFor s2 p.name c s.now := by
+            rw [h2]; exact writeMeta_initialised (set s p.name .cs (.cstate c)) p.name c
+          have hC : getClient s2 p.name = some c := by rw [h2, getClient_writeMeta, getClient_set_cs]
+          have hN : s2.now = s.now := by rw [h2, writeMeta_now]; rfl
+          by_cases ht : k.ty = .tss
+          · simp [ht] at hh; subst hh
+            refine ⟨hC, ?_, fun hne => (hty hne).1, hI, hN⟩
+            intro hor
             cases hor with
-            | inl h1 => exact h1
-            | inr h1 => exact absurd rfl h1
-          exact absurd ((hty hne).1 ▸ ht) hne
-        · simp [ht] at hh; subst hh
-          refine ⟨by rw [getClient_set_cons]; exact hC, fun _ => getCons_set_cons _ _ _ _, fun hne => (hty hne).1,
-                  initialised_set_cons _ _ _ _ _ _ hI, hN⟩
+            | inl h1 => exact absurd ht h1
+            | inr h1 => cases h1
+          · simp [ht] at hh; subst hh
+            refine ⟨by rw [getClient_set_cons]; exact hC, fun _ => getCons_set_cons _ _ _ _, fun hne => (hty hne).1,
+                    initialised_set_cons _ _ _ _ _ _ hI, hN⟩
   · -- upgrade
     unfold upgradeClient at hh
     cases ho : getClient s p.name with
@@ -307,13 +313,59 @@ theorem installs_exactly (s s' : St) (p : Proposal) (c : CState) (k : KState) (h
           | ok s2 =>
             obtain ⟨h2, hty⟩ := initClient_ok hi
             simp only [hi] at hh
-            injection hh with hh; subst hh
             have hI : InitialisedFor s2 p.name c s.now := by
               rw [h2]; exact writeMeta_initialised (set (clearName s p.name) p.name .cs (.cstate c)) p.name c
             have hC : getClient s2 p.name = some c := by rw [h2, getClient_writeMeta, getClient_set_cs]
             have hN : s2.now = s.now := by rw [h2, writeMeta_now]; rfl
-            exact ⟨by rw [getClient_set_cons]; exact hC, fun _ => getCons_set_cons _ _ _ _, fun hne => (hty hne).1,
-                   initialised_set_cons _ _ _ _ _ _ hI, hN⟩
+            by_cases ht : k.ty = .tss
+            · simp [ht] at hh; subst hh
+              refine ⟨hC, ?_, fun hne => (hty hne).1, hI, hN⟩
+              intro hor
+              cases hor with
+              | inl h1 => exact absurd ht h1
+              | inr h1 => cases h1
+            · simp [ht] at hh; subst hh
+              exact ⟨by rw [getClient_set_cons]; exact hC, fun _ => getCons_set_cons _ _ _ _, fun hne => (hty hne).1,
+                     initialised_set_cons _ _ _ _ _ _ hI, hN⟩
+
+/-- toggling to a TSS client with a TSS consensus state leaves exactly the client state in the client store: nothing of
+    the replaced client, and NO consensus state (a TSS client has none; one at height 0-0 would make the client
+    genesis of an export invalid) -/
+theorem toggle_tss_no_consensus (s s' : St) (p : Proposal) (c : CState) (k : KState) (hkind : p.kind = .toggle)
+    (hc : p.cs = some c) (hks : p.ks = some k) (hkt : k.ty = .tss) (h : govExec s p = (s', Res.ok)) :
+    c.ty = .tss ∧ ∀ key, get s' p.name key = if key = .cs then some (.cstate c) else none := by
+  obtain ⟨_, hh⟩ := govExec_ok h
+  unfold handle at hh
+  simp only [hkind, hc, hks] at hh
+  split at hh
+  · simp at hh
+  · unfold toggleClient at hh
+    cases ho : getClient s p.name with
+    | none => simp [ho] at hh
+    | some old =>
+      simp only [ho] at hh
+      by_cases hto : old.ty = c.ty
+      · simp [hto] at hh
+      · simp only [hto, ↓reduceIte] at hh
+        cases hi : initClient (set (clearName s p.name) p.name .cs (.cstate c)) p.name c k with
+        | err e => simp [hi] at hh
+        | panic e => simp [hi] at hh
+        | ok s2 =>
+          obtain ⟨h2, hty⟩ := initClient_ok hi
+          have hct : c.ty = .tss := by
+            by_cases hne : c.ty = .tss
+            · exact hne
+            · exact absurd ((hty hne).1 ▸ hkt) hne
+          simp [hi, hkt] at hh; subst hh
+          refine ⟨hct, ?_⟩
+          intro key
+          rw [h2]
+          simp only [writeMeta, hct, get_set, get_clearName]
+          by_cases hkey : key = .cs
+          · subst hkey; simp
+          · have : ¬ ((p.name, Key.cs) = (p.name, key)) := by
+              intro he; exact hkey (by injection he with _ h2; exact h2.symm)
+            simp [this, hkey]
 
 /-! ### usable: Active, and proofs at the installed height verify once the delay has passed -/
 
@@ -392,7 +444,7 @@ theorem usable (s s' : St) (p : Proposal) (c : CState) (k : KState) (hc : p.cs =
     ((c.ty = .bsc ∨ c.ty = .eth) → c.delay = 0 → verify s' p.name c.latest true "" = some true) := by
   obtain ⟨hC, hK, hT, hI, hN⟩ := installs_exactly s s' p c k hc hks h
   have hk' : c.ty ≠ .tss → getCons s' p.name c.latest = some k ∧ k.ty = c.ty :=
-    fun hne => ⟨hK (Or.inl hne), hT hne⟩
+    fun hne => ⟨hK (Or.inl (by rw [hT hne]; exact hne)), hT hne⟩
   refine ⟨fun hf => status_active s' p.name c k hk' (by rw [hN]; exact hf),
           fun t hf => status_active _ p.name c k hk' hf, ?_, ?_, ?_⟩
   · intro hty t ht
@@ -563,7 +615,9 @@ theorem toggle_accepts (s : St) (p : Proposal) (c old : CState) (k : KState) (hk
     (ho : getClient s p.name = some old) (hne : old.ty ≠ c.ty)
     (hk : c.ty ≠ .tss → k.ty = c.ty ∧ c.initOk = true) : ∃ s', govExec s p = (s', Res.ok) := by
   unfold govExec handle toggleClient
-  simp [validateBasic_of p c hc hn hv, hkind, ho, hc, hks, hne, initClient_accepts _ _ _ _ hk, commit]
+  simp only [validateBasic_of p c hc hn hv, Bool.not_true, Bool.false_eq_true, ↓reduceIte, hkind, ho,
+    Option.isNone_some, hc, hks, hne, initClient_accepts _ _ _ _ hk]
+  split <;> exact ⟨_, rfl⟩
 
 /-- the 4 pairs with equal types are rejected by toggle, and change nothing -/
 theorem toggle_same_type_rejected (s : St) (p : Proposal) (c old : CState) (hkind : p.kind = .toggle)
@@ -614,13 +668,20 @@ theorem upgrade_accepts (s : St) (p : Proposal) (c old : CState) (k : KState) (h
   unfold govExec handle upgradeClient
   simp [validateBasic_of p c hc hn hv, hkind, ho, hc, hks, he, hs1, commit]
 
-/-- **create, all four types** — accepted under a valid unused name for a well-formed proposal -/
+/-- **create, all four types** — accepted under a valid unused name other than the chain's own for a well-formed proposal -/
+theorem create_own_name_rejected (s : St) (p : Proposal) (hkind : p.kind = .create) (hself : p.name = s.self) :
+    govExec s p = (s, Res.err) := by
+  unfold govExec
+  split
+  · rfl
+  · simp [handle, hkind, hself, commit]
+
 theorem create_accepts (s : St) (p : Proposal) (c : CState) (k : KState) (hkind : p.kind = .create)
     (hc : p.cs = some c) (hks : p.ks = some k) (hn : validName p.name = true) (hv : c.valid = true)
-    (ho : getClient s p.name = none)
+    (ho : getClient s p.name = none) (hself : p.name ≠ s.self)
     (hk : c.ty ≠ .tss → k.ty = c.ty ∧ c.initOk = true) : ∃ s', govExec s p = (s', Res.ok) := by
   unfold govExec handle createClient
-  simp only [validateBasic_of p c hc hn hv, Bool.not_true, Bool.false_eq_true, ↓reduceIte, hkind, ho,
+  simp only [validateBasic_of p c hc hn hv, Bool.not_true, Bool.false_eq_true, ↓reduceIte, hkind, ho, hself,
     Option.isSome_none, hc, hks, initClient_accepts _ _ _ _ hk]
   split <;> exact ⟨_, rfl⟩
 
@@ -667,6 +728,14 @@ example : (run init ([.relayer { address := "addrA", addrOk := true, nAddresses 
                check := true, newC := exTss, newK := none, delta := [] },
      .update { name := "chain-b", signer := "addrA", signerOk := true, hdr := { ty := .tss, height := none, vb := true },
                check := true, newC := exTss, newK := none, delta := [] }])).2.drop 11 = [.ok, .panic] := by decide
+-- after bsc -> tss (TSS consensus state): no consensus state at 0-0, nothing but the client state
+example : getCons (run init (exHist.take 10)).1 "chain-b" ⟨0, 0⟩ = none ∧
+          get (run init (exHist.take 10)).1 "chain-b" (.sg ⟨0, 200⟩) = none := by decide
+-- a client under the chain's own name is refused; an upgrade of a TSS client does store a consensus state at 0-0
+example : (govExec { init with self := "home" } { kind := .create, name := "home", cs := some exTss, ks := some (exK .tss 0) }).2 = .err := by decide
+example : getCons (run init [.prop { kind := .create, name := "abc", cs := some exTss, ks := some (exK .tss 0) },
+                             .prop { kind := .upgrade, name := "abc", cs := some exTss, ks := some (exK .tss 0) }]).1 "abc" ⟨0, 0⟩
+          = some (exK .tss 0) := by decide
 end Examples
 
 end TM.Lifecycle
